@@ -42,7 +42,8 @@ type Relay struct {
 	lastMAC   map[string][]byte
 	queryMAC  []byte
 
-	LastForwardT time.Time // when the last message was handed to the link towards the client
+	LastForwardT time.Time              // when the last message was handed to the link towards the client
+	OutT         map[string][]time.Time // when each forwarded message was handed to the link
 }
 
 //go:norace
@@ -94,6 +95,10 @@ func (p *pump) forward(b []byte, authentic bool) bool {
 	r.K.Lock()
 	r.Out[p.dir] = append(r.Out[p.dir], append([]byte(nil), b...))
 	r.Authentic[p.dir] = append(r.Authentic[p.dir], authentic)
+	if r.OutT == nil {
+		r.OutT = map[string][]time.Time{}
+	}
+	r.OutT[p.dir] = append(r.OutT[p.dir], time.Now())
 	if p.dir == "s2c" {
 		r.LastForwardT = time.Now()
 	}
